@@ -10,7 +10,7 @@ import ast
 import itertools
 
 from ..core import Rule, AnalysisError, norm
-from .. import pyfront, dtable
+from .. import pyfront, dtable, pyutil
 from . import c02
 
 LD = "python/digital_rf/list_drf.py"
@@ -47,30 +47,66 @@ def r1_grammar(repo=None):
     eq(L["_RE_SUBDIR"], exact, "L(_RE_SUBDIR) = YYYY-MM-DDTHH-MM-SS anchored at both ends")
     # structure: files are taken only from matched sub-directories of directories holding a properties file
     m = pyfront.mod("list_drf", repo)
+
+    def match_guarded(q, regex_name, sink_attr, what, why):
+        g = m.cfg(q)
+        f = m.fn(q)
+        mv = None
+        for n in pyfront.walk_no_nested(f):
+            if isinstance(n, ast.Assign) and isinstance(n.value, ast.Call) and isinstance(n.value.func, ast.Attribute) \
+                    and n.value.func.attr == "match" and pyfront.dotted(n.value.func.value) == regex_name \
+                    and isinstance(n.targets[0], ast.Name):
+                mv = n.targets[0].id
+        sinks = [x for x in g.nodes if any(isinstance(c.func, ast.Attribute) and c.func.attr == "append"
+                                           and pyfront.dotted(c.func.value) == sink_attr for c in pyfront.node_calls(x))]
+        if mv is None or not sinks:
+            raise AnalysisError("%s: `%s.match(...)` result or `%s.append` not found" % (q, regex_name, sink_attr))
+        if all(pyutil.truth_guarded(g, x.id, mv) for x in sinks):
+            r.ok("%s:%s %s" % (m.rel, sinks[0].line, q), what)
+        else:
+            r.violation(m.rel, q, "%s.append not guarded by the %s match" % (sink_attr, regex_name), why, line=sinks[0].line)
+
     dd = m.fn("_decorate_drf_files")
-    app = [c for c in ast.walk(dd) if isinstance(c, ast.Call) and isinstance(c.func, ast.Attribute) and c.func.attr == "append"]
-    ok = len(app) == 1 and isinstance(m.enclosing(app[0], (ast.If,)), ast.If) and norm(ast.unparse(m.enclosing(app[0], (ast.If,)).test)) == "m" \
-        and "m = file_regex.match(filename)" in norm(ast.unparse(dd))
-    if ok:
-        r.ok("%s:%s _decorate_drf_files" % (m.rel, dd.lineno), "a file name is kept only if file_regex.match(name) succeeded")
-    else:
-        r.violation(m.rel, "_decorate_drf_files", "append not guarded by the regex match", "files that do not match the requested kind "
-                    "could be listed", line=dd.lineno)
+    ret = [n for n in pyfront.walk_no_nested(dd) if isinstance(n, ast.Return) and isinstance(n.value, ast.Name)]
+    if not ret:
+        raise AnalysisError("_decorate_drf_files: returned list not found")
+    match_guarded("_decorate_drf_files", "file_regex", ret[0].value.id,
+                  "a file name is kept only if file_regex.match(name) succeeded",
+                  "files that do not match the requested kind could be listed")
     ym = m.fn(YM)
-    src = norm(ast.unparse(ym))
-    if "m = _RE_SUBDIR.match(d) if m:" in src and "dirs[:] = others" in src and src.count("dec_subdirs.append") == 1:
-        r.ok("%s:%s %s" % (m.rel, ym.lineno, YM), "only directory names matching _RE_SUBDIR are searched for files; they are removed "
-             "from the recursion list")
+    subl = None
+    for n in pyfront.walk_no_nested(ym):
+        if isinstance(n, ast.Call) and pyfront.call_name(n) == "_decorated_list_slice" and n.args and isinstance(n.args[0], ast.Name) \
+                and any(k.arg == "ffill" and pyfront.const(k.value) is True for k in n.keywords):
+            subl = n.args[0].id
+    if subl is None:
+        raise AnalysisError("%s: sub-directory list (sliced with ffill=True) not found" % YM)
+    match_guarded(YM, "_RE_SUBDIR", subl, "only directory names matching _RE_SUBDIR are searched for files",
+                  "files outside the timestamped sub-directory structure could be listed")
+    if any(isinstance(n, ast.Assign) and isinstance(n.targets[0], ast.Subscript) and pyfront.dotted(n.targets[0].value) == "dirs"
+           and isinstance(n.targets[0].slice, ast.Slice) for n in pyfront.walk_no_nested(ym)):
+        r.ok("%s %s dirs[:] = ..." % (m.rel, YM), "timestamped sub-directories are removed from the recursion list in place")
     else:
-        r.violation(m.rel, YM, "sub-directory selection", "files outside the timestamped sub-directory structure could be listed", line=ym.lineno)
+        r.violation(m.rel, YM, "dirs[:] not reassigned", "os.walk would descend into the timestamped sub-directories and list their "
+                    "content again as if they were channels", line=ym.lineno)
     il = m.fn("ilsdrf")
-    calls = [c for c in ast.walk(il) if isinstance(c, ast.Call) and pyfront.call_name(c) == YM]
-    guarded = all(any(isinstance(a, ast.If) and norm(ast.unparse(a.test)) == "any_props" for a in _anc(m, c)) for c in calls)
-    if len(calls) == 2 and guarded:
+    gi = m.cfg("ilsdrf")
+    calls = [n for n in gi.nodes if any(pyfront.call_name(c) == YM for c in pyfront.node_calls(n))]
+    if len(calls) != 2:
+        raise AnalysisError("ilsdrf: expected 2 call sites of %s, found %d" % (YM, len(calls)))
+    # the variable holding the properties files of the directory is the 3rd argument
+    pv = set()
+    for n in calls:
+        for c in pyfront.node_calls(n):
+            if pyfront.call_name(c) == YM and len(c.args) >= 3 and isinstance(c.args[2], ast.Name):
+                pv.add(c.args[2].id)
+    if len(pv) == 1 and all(pyutil.truth_guarded(gi, n.id, list(pv)[0]) for n in calls):
         r.ok("%s:%s ilsdrf" % (m.rel, il.lineno), "data files are only listed for directories that hold a properties file (both call sites "
-             "under `if any_props`)")
+             "reachable only when `%s` is non-empty)" % list(pv)[0])
+    elif len(pv) != 1:
+        raise AnalysisError("ilsdrf: properties argument of %s not recognised" % YM)
     else:
-        r.violation(m.rel, "ilsdrf", "%d calls of %s, guarded=%s" % (len(calls), YM, guarded), "files could be listed from a directory "
+        r.violation(m.rel, "ilsdrf", "%s called without a non-empty properties list" % YM, "files could be listed from a directory "
                     "that is not a channel", line=il.lineno)
     r.guard(11)
     return r
@@ -150,161 +186,218 @@ def r2_kind_tables(repo=None):
     return r
 
 
-LISTS = ("dec_files", "dec_subdirs", "dec_prior_files")
+def _classify(node, var, sorted_helpers=()):
+    """'sort' | 'mut' | None : effect of CFG node on the sortedness of list variable `var`."""
+    a = node.ast
+    if a is None or isinstance(a, ast.withitem):
+        return None
+    kind = None
+    for c in pyfront.node_calls(node):
+        if isinstance(c.func, ast.Attribute) and pyfront.dotted(c.func.value) == var:
+            if c.func.attr == "sort":
+                kind = "sort" if pyfront.kwarg(c, "reverse") is None else "mut"
+            elif c.func.attr in ("append", "extend", "insert", "reverse", "pop", "remove"):
+                kind = "mut"
+    if isinstance(a, ast.Assign) and any(isinstance(t, ast.Name) and t.id == var for t in a.targets):
+        v = a.value
+        if isinstance(v, ast.Call) and pyfront.call_name(v) == "sorted" and pyfront.kwarg(v, "reverse") is None:
+            kind = "sort"
+        elif isinstance(v, ast.Call) and pyfront.call_name(v) in sorted_helpers and any(
+                isinstance(x, ast.Name) and x.id == var for x in v.args):
+            kind = None  # helper returns its (sorted) argument unchanged or a freshly sorted list: state preserved
+        else:
+            kind = "mut"
+    if isinstance(a, ast.AugAssign) and isinstance(a.target, ast.Name) and a.target.id == var:
+        kind = "mut"
+    return kind
+
+
+def sortedness_preserving_helpers(m):
+    """Module functions f(..., lst, ...) whose every return value is either the parameter `lst` as received or a list that
+    was sort()ed after its last modification (so: sorted argument in => sorted result out)."""
+    out = set()
+    for q, f in m.functions.items():
+        if "." in q or "<locals>" in q:
+            continue
+        rets = [n for n in pyfront.walk_no_nested(f) if isinstance(n, ast.Return) and isinstance(n.value, ast.Name)]
+        allrets = [n for n in pyfront.walk_no_nested(f) if isinstance(n, ast.Return)]
+        if not rets or len(rets) != len(allrets):
+            continue
+        var = rets[0].value.id
+        if any(x.value.id != var for x in rets) or var not in [a_.arg for a_ in f.args.args]:
+            continue
+        g = m.cfg(q)
+        sorts = [x.id for x in g.nodes if _classify(x, var) == "sort"]
+        muts = [x for x in g.nodes if _classify(x, var) == "mut"]
+        rnodes = [x for x in g.nodes if x.kind == "return"]
+        if muts and all(not any(rn.id in g.reach([mu.id], avoid=sorts, skip_labels=("exc",)) for rn in rnodes) for mu in muts):
+            out.add(q)
+    return out
 
 
 def r3_sorted_before_sliced(repo=None):
     r = Rule("C14.R3", "lists are sorted before they are bisected; reversal is applied only to the sliced result (typestate)")
     m = pyfront.mod("list_drf", repo)
-    g = m.cfg(YM)
-    f = m.fn(YM)
-    calls = []
-    for n in g.nodes:
-        for c in pyfront.node_calls(n):
-            if pyfront.call_name(c) == "_decorated_list_slice" and c.args and isinstance(c.args[0], ast.Name):
-                calls.append((n, c, c.args[0].id))
-    if len(calls) < 2:
-        raise AnalysisError("%s: expected 2 _decorated_list_slice calls, found %d" % (YM, len(calls)))
-
-    def classify(node, var):
-        """'sort' | 'mut' | None for CFG node wrt list var"""
-        a = node.ast
-        if a is None or isinstance(a, ast.withitem):
-            return None
-        kind = None
-        for c in pyfront.node_calls(node):
-            if isinstance(c.func, ast.Attribute) and pyfront.dotted(c.func.value) == var:
-                if c.func.attr == "sort":
-                    kind = "sort" if pyfront.kwarg(c, "reverse") is None else "mut"
-                elif c.func.attr in ("append", "extend", "insert", "reverse", "pop", "remove"):
-                    kind = "mut"
-        if isinstance(a, ast.Assign) and any(isinstance(t, ast.Name) and t.id == var for t in a.targets):
-            v = a.value
-            if isinstance(v, ast.Call) and pyfront.call_name(v) == "sorted" and pyfront.kwarg(v, "reverse") is None:
-                kind = "sort"
+    helpers = sortedness_preserving_helpers(m)
+    n_calls = 0
+    for q, f in m.functions.items():
+        if "<locals>" in q:
+            continue
+        g = None
+        for c in pyfront.walk_no_nested(f):
+            if not (isinstance(c, ast.Call) and pyfront.call_name(c) == "_decorated_list_slice" and c.args and isinstance(c.args[0], ast.Name)):
+                continue
+            n_calls += 1
+            g = g or m.cfg(q)
+            var = c.args[0].id
+            n = [x for x in g.nodes if any(cc is c for cc in pyfront.node_calls(x))][0]
+            sorts = [x.id for x in g.nodes if _classify(x, var, helpers) == "sort"]
+            muts = [x for x in g.nodes if _classify(x, var, helpers) == "mut"]
+            bad = [x for x in muts if n.id in g.reach([x.id], avoid=sorts, skip_labels=("exc",)) and x.id != n.id]
+            site = "%s:%s %s _decorated_list_slice(%s)" % (m.rel, n.line, q, var)
+            if bad:
+                r.violation(m.rel, q, "_decorated_list_slice(%s) after `%s`" % (var, bad[0].label[:60]),
+                            "the list can reach the bisection without a sort() after its last modification: bisect on an unsorted list "
+                            "selects the wrong window", line=n.line, path=g.describe(g.path(bad[0].id, n.id, avoid=sorts) or []))
+            elif not muts:
+                raise AnalysisError("%s: list `%s` has no definition in this function" % (q, var))
             else:
-                kind = "mut"
-        if isinstance(a, ast.AugAssign) and isinstance(a.target, ast.Name) and a.target.id == var:
-            kind = "mut"
-        return kind
-
-    for n, c, var in calls:
-        sorts = [x.id for x in g.nodes if classify(x, var) == "sort"]
-        muts = [x for x in g.nodes if classify(x, var) == "mut"]
-        # aliasing: `dec_files = dec_prior_files` after extend: the alias's mutations count via the assignment (mut)
-        bad = [x for x in muts if n.id in g.reach([x.id], avoid=sorts, skip_labels=("exc",)) and x.id != n.id]
-        site = "%s:%s %s _decorated_list_slice(%s)" % (m.rel, n.line, YM, var)
-        if bad:
-            r.violation(m.rel, YM, "_decorated_list_slice(%s) after `%s`" % (var, bad[0].label[:60]),
-                        "the list can reach the bisection without a sort() after its last modification: bisect on an unsorted list "
-                        "selects the wrong window", line=n.line, path=g.describe(g.path(bad[0].id, n.id, avoid=sorts) or []))
-        elif not muts:
-            r.violation(m.rel, YM, "_decorated_list_slice(%s)" % var, "list has no definition in this function", line=n.line)
-        else:
-            r.ok(site, "sorted after every modification on every path (%d modification sites, %d sort sites)" % (len(muts), len(sorts)))
-    # reversal only wraps the sliced list
-    for c in pyfront.walk_no_nested(f):
-        if isinstance(c, ast.Call) and pyfront.call_name(c) == "reversed":
-            a = c.args[0]
-            if isinstance(a, ast.Subscript) and isinstance(a.value, ast.Name) and a.value.id in LISTS and isinstance(a.slice, ast.Name):
-                r.ok("%s:%s %s `%s`" % (m.rel, c.lineno, YM, norm(ast.unparse(c))), "reverses the already sliced list (changes order, not the set)")
-            else:
-                r.violation(m.rel, YM, norm(ast.unparse(c)), "reversal is applied to something other than the sliced list", line=c.lineno)
-        if isinstance(c, ast.Call) and isinstance(c.func, ast.Attribute) and c.func.attr in ("reverse",) and pyfront.dotted(c.func.value) in LISTS:
-            r.violation(m.rel, YM, norm(ast.unparse(c)), "list reversed in place before slicing", line=c.lineno)
-    r.guard(4)
+                r.ok(site, "sorted after every modification on every path (%d modification sites, %d sort sites%s)" % (
+                    len(muts), len(sorts), (", via sortedness-preserving helper(s) %s" % sorted(helpers)) if helpers else ""))
+            # reversal: the list itself is never reversed before being sliced (in place or by sort(reverse=True))
+            for x in g.nodes:
+                for cc in pyfront.node_calls(x):
+                    if isinstance(cc.func, ast.Attribute) and pyfront.dotted(cc.func.value) == var and (
+                            cc.func.attr == "reverse" or (cc.func.attr == "sort" and pyfront.kwarg(cc, "reverse") is not None)):
+                        if n.id in g.reach([x.id], skip_labels=("exc",)):
+                            r.violation(m.rel, q, norm(ast.unparse(cc)), "the list is reversed before it is bisected (the window would be "
+                                        "taken from a descending list)", line=cc.lineno)
+                    if pyfront.call_name(cc) == "reversed" and cc.args and isinstance(cc.args[0], ast.Name) and cc.args[0].id == var:
+                        r.violation(m.rel, q, norm(ast.unparse(cc)), "reversal applied to the whole list instead of the sliced result",
+                                    line=cc.lineno)
+    if n_calls < 2:
+        raise AnalysisError("expected 2 _decorated_list_slice calls in list_drf, found %d" % n_calls)
+    r.guard(2)
     return r
+
+
+def _in_oserror_try(m, c):
+    tr = m.enclosing(c, (ast.Try,))
+    while tr is not None:
+        if any(c in list(ast.walk(s)) for s in tr.body):
+            for h in tr.handlers:
+                names = [pyfront.dotted(h.type)] if h.type is not None and not isinstance(h.type, ast.Tuple) else (
+                    [pyfront.dotted(e) for e in h.type.elts] if h.type is not None else ["*"])
+                if any(x in ("OSError", "IOError", "EnvironmentError", "Exception", "*") for x in names):
+                    return True
+        tr = m.enclosing(tr, (ast.Try,))
+    return False
 
 
 def r4_robust_listing(repo=None):
     r = Rule("C14.R4", "listing never fails on empty or vanishing sub-directories (guards)")
     m = pyfront.mod("list_drf", repo)
-    f = m.fn(YM)
-    g = m.cfg(YM)
     n_ld = 0
-    for c in pyfront.walk_no_nested(f):
-        if isinstance(c, ast.Call) and pyfront.call_name(c) == "os.listdir":
-            n_ld += 1
-            tr = m.enclosing(c, (ast.Try,))
-            ok = False
-            if tr is not None and any(c in list(ast.walk(s)) for s in tr.body):
-                for h in tr.handlers:
-                    names = [pyfront.dotted(h.type)] if h.type is not None and not isinstance(h.type, ast.Tuple) else (
-                        [pyfront.dotted(e) for e in h.type.elts] if h.type is not None else ["*"])
-                    if any(x in ("OSError", "IOError", "EnvironmentError", "Exception", "*", "FileNotFoundError") for x in names):
-                        ok = "FileNotFoundError" not in names or "OSError" in names or True
-            site = "%s:%s %s `%s`" % (m.rel, c.lineno, YM, norm(ast.unparse(c)))
-            if ok:
-                r.ok(site, "inside try/except OSError (a sub-directory that vanished is skipped)")
-            else:
-                r.violation(m.rel, YM, norm(ast.unparse(c)), "listing a timestamped sub-directory is not guarded: a sub-directory removed "
-                            "meanwhile (ringbuffer, mirror) makes the whole listing fail", line=c.lineno)
-    if n_ld < 2:
-        raise AnalysisError("%s: expected 2 os.listdir sites, found %d" % (YM, n_ld))
-    # constant subscripts of listing-derived lists are guarded by a non-emptiness test
-    n_sub = 0
-    for n in g.nodes:
-        if n.ast is None or isinstance(n.ast, (ast.withitem,)) or n.kind == "join":
-            continue
-        tree = n.ast
-        for s in pyfront.walk_no_nested(tree) if not isinstance(tree, (ast.For,)) else []:
-            if isinstance(s, ast.Subscript) and isinstance(s.value, ast.Name) and s.value.id in LISTS:
-                idx = s.slice
-                cidx = pyfront.const(idx)
-                if cidx is None and isinstance(idx, ast.UnaryOp) and isinstance(idx.op, ast.USub):
-                    cidx = -pyfront.const(idx.operand) if pyfront.const(idx.operand) is not None else None
-                if not isinstance(cidx, int):
-                    continue
-                n_sub += 1
-                var = s.value.id
-                defs = [x.id for x in g.nodes if isinstance(x.ast, ast.Assign) and any(
-                    isinstance(t, ast.Name) and t.id == var for t in x.ast.targets)]
-                tests = [x.id for x in g.nodes if x.kind == "cond" and isinstance(x.ast, ast.Name) and x.ast.id == var]
-                reach = g.reach(defs, skip_labels=("exc",), edge_filter=lambda a, b, lab: not (a in tests and lab == "T"))
-                if n.id in reach and n.id not in tests:
-                    r.violation(m.rel, YM, norm(ast.unparse(s)), "`%s` can be empty here (an empty or fully filtered sub-directory): "
-                                "IndexError makes the listing fail" % var, line=n.line)
+    for q, f in m.functions.items():
+        if "<locals>" in q or q == "ilsdrf":
+            continue  # ilsdrf lists the *parent* of a sub-directory given by the caller, not a sub-directory found by a scan
+        for c in pyfront.walk_no_nested(f):
+            if isinstance(c, ast.Call) and pyfront.call_name(c) == "os.listdir":
+                n_ld += 1
+                site = "%s:%s %s `%s`" % (m.rel, c.lineno, q, norm(ast.unparse(c)))
+                if _in_oserror_try(m, c):
+                    r.ok(site, "inside try/except OSError (a sub-directory that vanished is skipped)")
                 else:
-                    r.ok("%s:%s %s `%s`" % (m.rel, n.line, YM, norm(ast.unparse(s))), "reached only through the non-empty branch of a "
-                         "truth test on `%s`" % var)
+                    r.violation(m.rel, q, norm(ast.unparse(c)), "listing a timestamped sub-directory is not guarded: a sub-directory removed "
+                                "meanwhile (ringbuffer, mirror) makes the whole listing fail", line=c.lineno)
+    if n_ld < 2:
+        raise AnalysisError("list_drf: expected 2 os.listdir sites for sub-directories, found %d" % n_ld)
+    # constant subscripts of lists produced by _decorate_drf_files are guarded by a non-emptiness test
+    n_sub = 0
+    for q, f in m.functions.items():
+        if "<locals>" in q:
+            continue
+        lists = {n.targets[0].id for n in pyfront.walk_no_nested(f) if isinstance(n, ast.Assign) and isinstance(n.targets[0], ast.Name)
+                 and isinstance(n.value, ast.Call) and pyfront.call_name(n.value) == "_decorate_drf_files"}
+        if not lists:
+            continue
+        g = m.cfg(q)
+        for n in g.nodes:
+            if n.ast is None or isinstance(n.ast, (ast.withitem, ast.For)) or n.kind == "join":
+                continue
+            for s_ in pyfront.walk_no_nested(n.ast):
+                if isinstance(s_, ast.Subscript) and isinstance(s_.value, ast.Name) and s_.value.id in lists:
+                    idx = s_.slice
+                    cidx = pyfront.const(idx)
+                    if cidx is None and isinstance(idx, ast.UnaryOp) and isinstance(idx.op, ast.USub):
+                        cidx = -pyfront.const(idx.operand) if pyfront.const(idx.operand) is not None else None
+                    if not isinstance(cidx, int):
+                        continue
+                    n_sub += 1
+                    var = s_.value.id
+                    if pyutil.truth_guarded(g, n.id, var):
+                        r.ok("%s:%s %s `%s`" % (m.rel, n.line, q, norm(ast.unparse(s_))), "reached only through the non-empty branch of a "
+                             "truth test on `%s`" % var)
+                    else:
+                        r.violation(m.rel, q, norm(ast.unparse(s_)), "`%s` can be empty here (an empty or fully filtered sub-directory): "
+                                    "IndexError makes the listing fail" % var, line=n.line)
     if n_sub < 1:
-        raise AnalysisError("%s: no constant subscript of a listing-derived list found (anchor changed)" % YM)
-    r.guard(3)
+        r.note("no constant subscript of a list of decorated files remains (nothing to guard)")
+    r.guard(2)
     return r
 
 
 def r5_lookback_complete(repo=None):
     r = Rule("C14.R5", "the forward-fill look-back continues until a sub-directory that holds a matching file is found")
     m = pyfront.mod("list_drf", repo)
-    f = m.fn(YM)
-    loops = [n for n in ast.walk(f) if isinstance(n, ast.For) and isinstance(n.target, ast.Name) and n.target.id == "k_subdir"]
-    if len(loops) != 1:
-        raise AnalysisError("%s: look-back loop `for k_subdir in ...` not found" % YM)
-    lp = loops[0]
+    cands = []
+    for q, f in m.functions.items():
+        if "<locals>" in q:
+            continue
+        for lp in [n for n in pyfront.walk_no_nested(f) if isinstance(n, ast.For)]:
+            names = {pyfront.call_name(c) for c in ast.walk(lp) if isinstance(c, ast.Call)}
+            if "os.listdir" in names and "_decorate_drf_files" in names and any(isinstance(b, ast.Break) for b in ast.walk(lp)):
+                cands.append((q, f, lp))
+    # keep the innermost candidate(s): the per-sub-directory loop also contains the look-back loop
+    cands = [c for c in cands if not any(o is not c and o[1] is c[1] and o[2] is not c[2] and any(x is o[2] for x in ast.walk(c[2]))
+                                          for o in cands)]
+    if len(cands) != 1:
+        raise AnalysisError("list_drf: the look-back loop (a for loop that lists earlier sub-directories, decorates their files and "
+                            "breaks) was not found exactly once (%d candidates)" % len(cands))
+    q, f, lp = cands[0]
     it = norm(ast.unparse(lp.iter))
-    if it != "range(subdir_slice.start - 1, -1, -1)":
-        r.violation(m.rel, YM, "for k_subdir in %s" % it, "the look-back must scan every earlier sub-directory from the nearest to the "
-                    "oldest", line=lp.lineno)
-    breaks = [b for b in ast.walk(lp) if isinstance(b, ast.Break)]
-    if not breaks:
-        r.violation(m.rel, YM, "look-back loop without break", "files of every earlier sub-directory would be merged in", line=lp.lineno)
-    for b in breaks:
-        guard = None
-        for a in _anc(m, b):
-            if a is lp:
-                break
-            if isinstance(a, ast.If) and b in list(ast.walk(ast.Module(body=a.body, type_ignores=[]))):
-                t = a.test
-                if isinstance(t, ast.Name):
-                    guard = t.id
-        src = norm(ast.unparse(lp))
-        if guard and ("%s = _decorate_drf_files(" % guard) in src:
-            r.ok("%s:%s %s" % (m.rel, b.lineno, YM), "the loop stops only when `%s` (matching files of that sub-directory) is non-empty" % guard)
+    back_ok = False
+    if isinstance(lp.iter, ast.Call) and pyfront.call_name(lp.iter) == "range" and len(lp.iter.args) == 3 \
+            and norm(ast.unparse(lp.iter.args[1])) == "-1" and norm(ast.unparse(lp.iter.args[2])) == "-1" \
+            and norm(ast.unparse(lp.iter.args[0])).endswith(".start - 1"):
+        back_ok = True
+    if isinstance(lp.iter, ast.Call) and pyfront.call_name(lp.iter) == "reversed" and isinstance(lp.iter.args[0], ast.Name):
+        pname = lp.iter.args[0].id
+        # the parameter must be bound, at the call site, to the part of the sub-directory list before the slice start
+        for qq, ff in m.functions.items():
+            for c in pyfront.walk_no_nested(ff):
+                if isinstance(c, ast.Call) and pyfront.call_name(c) == q:
+                    params = [a_.arg for a_ in f.args.args]
+                    if pname in params and params.index(pname) < len(c.args):
+                        a_ = c.args[params.index(pname)]
+                        if isinstance(a_, ast.Subscript) and isinstance(a_.slice, ast.Slice) and a_.slice.lower is None \
+                                and a_.slice.upper is not None and norm(ast.unparse(a_.slice.upper)).endswith(".start"):
+                            back_ok = True
+    if not back_ok:
+        raise AnalysisError("%s: iteration of the look-back loop not recognised: %s" % (q, it))
+    r.ok("%s:%s %s look-back loop over `%s`" % (m.rel, lp.lineno, q, it), "scans every earlier sub-directory from the nearest to the oldest")
+    g = m.cfg(q)
+    for b in [x for x in ast.walk(lp) if isinstance(x, ast.Break)]:
+        bn = [n for n in g.nodes if n.ast is b]
+        flists = [n.targets[0].id for n in ast.walk(lp) if isinstance(n, ast.Assign) and isinstance(n.targets[0], ast.Name)
+                  and isinstance(n.value, ast.Call) and pyfront.call_name(n.value) == "_decorate_drf_files"]
+        if bn and flists and any(pyutil.truth_guarded(g, bn[0].id, v) for v in flists):
+            r.ok("%s:%s %s" % (m.rel, b.lineno, q), "the loop stops only when the matching files of that sub-directory (`%s`) are non-empty" % flists[0])
         else:
-            r.violation(m.rel, YM, "break in the look-back loop not guarded by a non-empty file list", "the search for the latest "
+            r.violation(m.rel, q, "break in the look-back loop not guarded by a non-empty file list", "the search for the latest "
                         "metadata file before the start time stops at an empty (or tmp-only) sub-directory, so the forward-fill file "
                         "is missing from the listing", line=b.lineno)
-    r.guard(1)
+    r.guard(2)
     return r
 
 
